@@ -679,7 +679,55 @@ pub fn run_c18(ctx: &RunCtx) {
     let n = ctx.pick(12_000u64, 300_000u64);
     run_arrangements(ctx, &["C18:"], "arrangement", n);
     fixed_cases(ctx, "C18");
+    ctx.par_units(1, |_, st| {
+        let mut rep = CaseReport::default();
+        check_builtin_library(&mut rep.failures);
+        rep.class("built-in-library");
+        rep.nontrivial = Some(fnv64(b"built-in-library"));
+        ctx.eval_local("C18", st, rep);
+    });
     cleanup_work();
+}
+
+/// The built-in library against a real file with the same declarations: `include
+/// "stdgates.inc"` must give the gate symbols (name, parameters, qubits) that including a file
+/// with the specification's signatures gives, and calls of every gate with the right counts must
+/// be judged alike.
+pub fn check_builtin_library(out: &mut Vec<Failure>) {
+    let mut decls = String::new();
+    let mut calls = String::from("qubit[4] lq;\n");
+    for (n, np, nq) in crate::semcheck::STD_GATES {
+        let params = if *np > 0 { format!("({})", (0..*np).map(|i| format!("p{i}")).collect::<Vec<_>>().join(", ")) } else { String::new() };
+        let qs = (0..*nq).map(|i| format!("a{i}")).collect::<Vec<_>>().join(", ");
+        decls.push_str(&format!("gate {n}{params} {qs} {{ }}\n"));
+        let args = if *np > 0 { format!("({})", (0..*np).map(|i| format!("0.{}", i + 1)).collect::<Vec<_>>().join(", ")) } else { String::new() };
+        let ops = (0..*nq).map(|i| format!("lq[{i}]")).collect::<Vec<_>>().join(", ");
+        calls.push_str(&format!("{n}{args} {ops};\n"));
+    }
+    let builtin = analyze_with_files(&format!("include \"stdgates.inc\";\n{calls}"), &[]);
+    let real = analyze_with_files(&format!("include \"real_library.inc\";\n{calls}"), &[("real_library.inc".to_string(), decls.clone())]);
+    let detail = |a: String, e: String| json!({"input": {"source": format!("include \"stdgates.inc\";\n{calls}")}, "actual": a, "expected": e});
+    match (builtin, real) {
+        (Ok(b), Ok(r)) => {
+            let gates = |res: &crate::pipeline::Analysis| -> Vec<(String, String)> {
+                res.symbol_table().verif_symbols().iter().filter(|s| matches!(s.symbol_type(), oq3_semantics::types::Type::Gate(..))).map(|s| (s.name().to_string(), format!("{:?}", s.symbol_type()))).collect()
+            };
+            let (gb, gr) = (gates(&b), gates(&r));
+            if gb != gr {
+                let i = gb.iter().zip(gr.iter()).position(|(x, y)| x != y).unwrap_or(gb.len().min(gr.len()));
+                out.push(Failure::new("C18:built-in-library-differs-from-its-declarations", detail(format!("{:?}", gb.get(i)), format!("{:?}", gr.get(i)))));
+            }
+            let kinds = |res: &crate::pipeline::Analysis| -> Vec<String> {
+                let mut v = vec![];
+                all_semantic_errors(res.semantic_errors(), &mut v);
+                v.into_iter().map(|k| k.0).collect()
+            };
+            if kinds(&b) != kinds(&r) {
+                out.push(Failure::new("C18:built-in-library-calls-judged-differently", detail(format!("{:?}", kinds(&b)), format!("{:?}", kinds(&r)))));
+            }
+        }
+        (Err(p), _) | (_, Err(p)) => out.push(Failure::new(format!("C18:{}", panic_key(&p)), detail(p.msg.clone(), "no panic".into()))),
+    }
 }
 
 pub fn run_c11_includes(ctx: &RunCtx) {
@@ -691,7 +739,12 @@ pub fn run_c11_includes(ctx: &RunCtx) {
 
 /// One program of the C03 include-chain family: `construct` sits in the file at `depth` of a
 /// chain of otherwise clean files (depth 0 = the main program).
-pub fn check_c03_chain(construct: &str, depth: usize, tail: bool, out: &mut Vec<Failure>) -> bool {
+pub fn check_c03_chain(construct_in: &str, depth: usize, tail: bool, out: &mut Vec<Failure>) -> bool {
+    // `HEADERS:` in front of the construct: every file of the chain starts with a version header
+    let (headers, construct) = match construct_in.strip_prefix("HEADERS:") {
+        Some(c) => (true, c),
+        None => (false, construct_in),
+    };
     let mut files: Vec<(String, String)> = vec![];
     let mut main = String::new();
     for d in 0..=depth {
@@ -707,6 +760,9 @@ pub fn check_c03_chain(construct: &str, depth: usize, tail: bool, out: &mut Vec<
             } else {
                 body = format!("{construct}\n{body}");
             }
+        }
+        if headers {
+            body = format!("OPENQASM 3.{d};\n{body}");
         }
         if d == 0 {
             main = body;
@@ -727,7 +783,7 @@ pub fn check_c03_chain(construct: &str, depth: usize, tail: bool, out: &mut Vec<
     if !crate::pipeline::clean_parse(&flat) {
         return false;
     }
-    let detail = |a: String| json!({"input": {"source": main, "files": files.iter().map(|(n, b)| format!("// ---- {n}\n{b}")).collect::<Vec<_>>(), "construct": construct, "depth": depth, "tail": tail}, "actual": a});
+    let detail = |a: String| json!({"input": {"source": main, "files": files.iter().map(|(n, b)| format!("// ---- {n}\n{b}")).collect::<Vec<_>>(), "construct": construct_in, "depth": depth, "tail": tail}, "actual": a});
     match analyze_with_files(&main, &files) {
         Err(p) => out.push(Failure::new(format!("C03:include-chain:{}", panic_key(&p)), detail(format!("{}:{} {}", p.file, p.line, p.msg)))),
         Ok(res) => {
@@ -764,6 +820,9 @@ pub const C03_CHAIN_CONSTRUCTS: &[&str] = &[
     "int[8] e = {1, 2};",
     "\"a string\";",
     "(1, 2);",
+    "HEADERS:bool hun = 1 < 2;",
+    "HEADERS:array[int, 3] hua;",
+    "HEADERS:qubit hq; qubit hq;",
     "def of(creg c[2]) { }",
     "def of(int a, qreg q[3], bit b) { }",
     "def of(qreg q) { }",
